@@ -2362,6 +2362,9 @@ class Mesher:
             # find ghost elements
             # Convert to array once and reuse
             nodes_arr = np.array(list(nodes), dtype=int)
+            # every node the rank owns, including those it claimed through another element type
+            # (mixed-type meshes, types whose gmsh id comes after the one of their boundary elements)
+            ownedNodes_arr = np.array(list(dict_rank_nodes[rank]), dtype=int)
             ghost_idx = set()
             for other_rank in range(Nproc):
                 if other_rank == rank:
@@ -2373,7 +2376,7 @@ class Mesher:
                 other_idx_arr = np.array(list(other_idx), dtype=int)
                 other_connect = connect[other_idx_arr]
                 # Use isin (not deprecated)
-                mask = np.isin(other_connect, nodes_arr).any(axis=1)
+                mask = np.isin(other_connect, ownedNodes_arr).any(axis=1)
                 ghost_idx.update(other_idx_arr[mask])
             # build full connectivity: owned elements + ghost elements
             # Use np.unique for combined sorting (faster than sorted(set))
